@@ -810,6 +810,25 @@ func emptyMgmt(c pomCase, variant string) int {
 	return 3 + mr.Intn(5)
 }
 
+// pluginTwin names the managed plugin that is declared a second time under <build><plugins> ("" = none).  Disabled here: the unrepaired
+// writer patches the twin along with the managed plugin (see 1-verif.diff of the coverage round).
+func pluginTwin(c pomCase) string { return "" }
+
+// twinBlock cuts the <build><plugins> … </plugins> block that precedes <pluginManagement> out of a rendered pom ("" if there is none).
+func twinBlock(s string) string {
+	i := strings.Index(s, "<build>")
+	j := strings.Index(s, "<pluginManagement>")
+	if i < 0 || j < i {
+		return ""
+	}
+	s = s[i:j]
+	a, b := strings.Index(s, "<plugins>"), strings.LastIndex(s, "</plugins>")
+	if a < 0 || b < a {
+		return ""
+	}
+	return s[a:b]
+}
+
 // renderPom writes the abstract pom as XML. variant "c" / "d" put a comment / CDATA inside the first
 // dependency's <version> (used only by the no-update identity cases), "e" / "f" see emptyMgmt.
 func renderPom(c pomCase, lr *rand.Rand, variant string) string {
@@ -1035,7 +1054,26 @@ func renderPom(c pomCase, lr *rand.Rand, variant string) string {
 		}
 	} else {
 		w(1, "<build>")
-		if noise { // a plugin outside pluginManagement, under another name: Read does not list its dependencies
+		if twin := pluginTwin(c); twin != "" {
+			// the first managed plugin once more under <build><plugins>, with the same dependencies: Read does not list these, so no
+			// update is addressed to them and they must stay as they are
+			g, a, _ := strings.Cut(strings.TrimPrefix(twin, "plugin@"), ":")
+			w(2, "<plugins>")
+			w(3, "<plugin>")
+			if g != "" {
+				w(4, "<groupId>"+g+"</groupId>")
+			}
+			w(4, "<artifactId>"+a+"</artifactId>")
+			w(4, "<dependencies>")
+			for _, d := range c.deps {
+				if d.origin == twin {
+					w(5, "<dependency><groupId>"+d.g+"</groupId><artifactId>"+d.a+"</artifactId><version>"+xmlEsc(d.ver)+"</version>"+map[bool]string{true: "<type>" + d.typ + "</type>"}[d.typ != ""]+map[bool]string{true: "<classifier>" + d.cls + "</classifier>"}[d.cls != ""]+"</dependency>")
+				}
+			}
+			w(4, "</dependencies>")
+			w(3, "</plugin>")
+			w(2, "</plugins>")
+		} else if noise { // a plugin outside pluginManagement, under another name: Read does not list its dependencies
 			w(2, "<plugins><plugin><groupId>other.g</groupId><artifactId>other-plugin</artifactId><version>3.1</version></plugin></plugins>")
 		}
 		w(2, "<pluginManagement>")
@@ -1325,7 +1363,8 @@ func runPom(c pomCase, variant string) (before string, reply string) {
 			id = hx.B(string(b) == src)
 			tok = hx.B(sameTokens(s.src, string(b)))
 		}
-		return fmt.Sprintf("r=ok deps=%s props=%s reqs=%s rb=%s id=%s tok=%s rest=%s sc=%s", post.deps, post.props, post.reqs, pre.reqs, id, tok, hx.B(maskValues(src) == maskValues(string(b))), sc) + map[bool]string{true: " view=differs", false: ""}[viewDiffers]
+		return fmt.Sprintf("r=ok deps=%s props=%s reqs=%s rb=%s id=%s tok=%s rest=%s sc=%s", post.deps, post.props, post.reqs, pre.reqs, id, tok, hx.B(maskValues(src) == maskValues(string(b))), sc) + map[bool]string{true: " view=differs", false: ""}[viewDiffers] +
+			map[bool]string{true: " twin=" + hx.B(twinBlock(s.src) == twinBlock(string(b))), false: ""}[twinBlock(s.src) != ""]
 	})
 	return before, reply
 }
